@@ -127,6 +127,19 @@ func c05R2(c *Ctx) {
 	if f == nil {
 		return
 	}
+	// per-transaction resources are created per transaction: the gas pool handed to ApplyTransaction
+	if g := c.Anchor(rule, evmT+".executeOriginTx"); g != nil {
+		for _, ci := range g.CallsTo(cfgx.Named("eth/core.ApplyTransaction")) {
+			gp := ci.Common().Args[3]
+			fresh := false
+			if call, ok := gp.(*ssa.Call); ok && cfgxCallee(call) == "eth/core.(*GasPool).AddGas" {
+				if _, isAlloc := call.Call.Args[0].(*ssa.Alloc); isAlloc {
+					fresh = true
+				}
+			}
+			c.R.Ob(rule, "executeOriginTx:gas-pool-fresh-per-transaction", fresh, c.Pos(ci), fname(g), "the GasPool given to ApplyTransaction must be created for this transaction (new(GasPool).AddGas(...)): a pool kept in the application drains across transactions and makes validity depend on the process' history; got "+shorten(exprOf(gp)))
+		}
+	}
 	want := "eth/core/state.New(chain/app/evm.(*EVMApp).getLastAppHash(a0),eth/core/state.NewDatabase(a0.stateDb))#0"
 	sts := f.FieldStores("chain/app/evm.EVMApp", "currentState")
 	ex := firstCall(f, "chain/app/evm.exeWithCPUParallelVeirfy")
